@@ -97,6 +97,22 @@ def mir_dump(manifest, pkg, features=(), tag='', key_hash=None, no_default=False
         return out
     t = time.time()
     target = os.path.join(CACHE, 'target-mir-' + (tag or pkg))
+    # one dump at a time per target directory: concurrent checks (same or different trees) would otherwise delete each other's
+    # fingerprints in mid-build
+    import fcntl
+    lock = open(target + '.lock', 'w')
+    fcntl.flock(lock, fcntl.LOCK_EX)
+    try:
+        return _mir_dump_locked(manifest, pkg, feats, tag, no_default, out, target, t)
+    finally:
+        fcntl.flock(lock, fcntl.LOCK_UN)
+        lock.close()
+
+
+def _mir_dump_locked(manifest, pkg, feats, tag, no_default, out, target, t):
+    if os.path.exists(out) and os.path.getsize(out) > 1000:      # another process produced it while we waited
+        BUILD_LOG.append((f'mir {tag or pkg} [{feats}]', 0.0, True))
+        return out
     _forget_fingerprint(target, pkg.replace('-', '_'))
     _forget_fingerprint(target, pkg)
     cmd = ['cargo', '+nightly', 'rustc', '--offline', '--manifest-path', manifest, '--lib', '--target-dir', target]
@@ -172,6 +188,13 @@ def native_helper(kind):
         BUILD_LOG.append((f'native {kind}', 0.0, True))
         return out
     t = time.time()
+    import fcntl
+    lock = open(os.path.join(CACHE, f'target-native-{kind}.lock'), 'w')
+    fcntl.flock(lock, fcntl.LOCK_EX)       # released when the process exits or the file object is collected
+    if os.path.exists(out):                # built by a concurrent check while we waited
+        lock.close()
+        BUILD_LOG.append((f'native {kind}', 0.0, True))
+        return out
     scratch = _scratch()
     try:
         native_gen.generate(kind, scratch, REPO)
@@ -189,6 +212,7 @@ def native_helper(kind):
         os.replace(tmp, out)
     finally:
         shutil.rmtree(scratch, ignore_errors=True)
+        lock.close()
     # keep the cache small: drop binaries of the same kind that have not been used for hours (concurrent runs on other trees may
     # still be using recent ones)
     now = time.time()
